@@ -76,6 +76,20 @@ class C28Trigger(Base):
             return bool(set(b['flows']) - {int(f[0])})
         return False
 
+    def waits_on_rereported_custom_output(self, rec, tid):
+        """Does the member depend on a custom output of a group-start
+        member that was re-run on its old (finished, retained) proxy?"""
+        p, n = split_id(tid)
+        for a in group_atoms(self.gt, n, p, rec['group']):
+            q = wfgen.atom_point(a, p)
+            par = f'{q}/{a[1]}'
+            b = rec['before'].get(par)
+            if a[3] not in wfgen.STD and a[3] != 'finished' and \
+                    par in rec['start'] and b is not None and \
+                    b['status'] in FINAL and a[3] in b['outputs']:
+                return True
+        return False
+
     def drop(self, tid, why):
         rec = self.owner.pop(tid, None)
         if rec is not None:
@@ -391,7 +405,10 @@ class C28Trigger(Base):
                         ':completed-by-messages-of-its-removed-job'
                         if tid in rec['fed_by_old_job'] else
                         ':pooled-member-in-another-flow'
-                        if self.other_flow(rec, tid) else ''),
+                        if self.other_flow(rec, tid) else
+                        ':rerun-custom-output-ignored'
+                        if self.waits_on_rereported_custom_output(rec, tid)
+                        else ''),
                            f'{tid}: its prerequisites on the group '
                            f'{sorted(rec["group"])} were all satisfied after '
                            f'the trigger at iteration {rec["it"]} (flow '
